@@ -1,6 +1,7 @@
 """Layout engines: render a generated program (fv.gen.Prog) as free-form or fixed-form
 source under explicit, seeded layout decisions, recording by construction where every
 statement, comment, directive and include line ends up."""
+import random
 from fv.gen import St, Blk, is_literal, join_natural, is_kw
 
 COMMENT_TEXTS = ["! plain comment", "!", "! it's quoted \"x\"", "! with & ampersand", "!! double bang",
@@ -162,9 +163,27 @@ def stmt_pieces(st, rng, opts, laid):
     return lines
 
 
+class _StmtRng:
+    """one independent random stream per statement, keyed by (layout seed, uid0), so that
+    deleting other statements (shrinking) leaves a statement's layout unchanged"""
+
+    def __init__(self, seed):
+        self.seed = seed
+        self.cur = random.Random(seed)
+
+    def select(self, st):
+        self.cur = random.Random((self.seed * 1000003 + (st.uid0 if st.uid0 is not None else 0)) & 0xFFFFFFFFFFFF)
+
+    def __getattr__(self, name):
+        return getattr(self.cur, name)
+
+
 def render_free(prog, rng, opts=None, comment_texts=None):
-    """-> Laid"""
+    """-> Laid.  `rng` may be an int (layout seed: per-statement streams, stable under
+    shrinking) or a random.Random."""
     opts = opts or FreeOpts()
+    if isinstance(rng, int):
+        rng = _StmtRng(rng)
     laid = Laid()
     ctexts = comment_texts or COMMENT_TEXTS
     flat = flat_with_depth(prog)
@@ -177,7 +196,7 @@ def render_free(prog, rng, opts=None, comment_texts=None):
         t = rng.choice(ctexts)
         if t.startswith("!$") or t.startswith("!dir$"):
             return t
-        return t + (" #%d" % ccount[0] if t != "!" else "")
+        return t + (" #%d" % rng.randint(0, 9999) if t != "!" else "")
 
     def emit_between(pad):
         while opts.comments and rng.random() < opts.p_comment:
@@ -191,6 +210,8 @@ def render_free(prog, rng, opts=None, comment_texts=None):
 
     while i < n:
         st, depth = flat[i]
+        if isinstance(rng, _StmtRng):
+            rng.select(st)
         if opts.indent == "tree":
             pad = "  " * depth
         elif opts.indent == "none":
